@@ -141,3 +141,89 @@ def timer_race(inp):
                 'interleaving': 'callback: self._timer.cancel() | caller: exit() | callback: self._timer = Timer(...); start()'}
     finally:
         U.Timer = orig
+
+
+def _race(leave_kind, interleaving):
+    """leave_kind: 'exit' | 'context-exception' | 'context-normal'
+    interleaving: 'callback-first'  callback runs its cancel(), then the caller leaves, then the callback continues
+                  'caller-first'    the caller is inside its cancelling action when the timer fires: the callback
+                                    starts (and may block on a lock) and only continues after the caller has left"""
+    import oqupy.util as U
+
+    class ScriptedTimer:
+        instances = []
+        hook = None
+
+        def __init__(self, interval, fn):
+            self.fn, self.armed = fn, False
+            ScriptedTimer.instances.append(self)
+
+        def start(self):
+            self.armed = True
+
+        def cancel(self):
+            self.armed = False
+            h, ScriptedTimer.hook = ScriptedTimer.hook, None
+            if h is not None:
+                h()
+    orig = U.Timer
+    U.Timer = ScriptedTimer
+    try:
+        buf = io.StringIO()
+        pb = U.ProgressBar(10)
+        pb._file = buf
+
+        def leave():
+            if leave_kind == 'exit':
+                pb.exit()
+            elif leave_kind == 'context-normal':
+                pb.__exit__(None, None, None)
+            else:
+                e = RuntimeError('injected failure')
+                pb.__exit__(RuntimeError, e, None)
+        with contextlib.redirect_stdout(buf):
+            pb.enter()
+            pb.update(1)
+            fired = pb._timer
+            fired.armed = False
+            if interleaving == 'callback-first':
+                go, done = threading.Event(), threading.Event()
+
+                def hook():
+                    go.set()
+                    done.wait(0.5)
+                ScriptedTimer.hook = hook
+                cb = threading.Thread(target=fired.fn)
+                cb.start()
+                go.wait(2.0)
+                leave()
+                done.set()
+                cb.join(5.0)
+            else:
+                holder = {}
+
+                def hook():            # runs inside the caller's cancel()
+                    holder['cb'] = threading.Thread(target=fired.fn)
+                    holder['cb'].start()
+                    time.sleep(0.3)    # the callback has started; with a lock it now waits for the caller
+                ScriptedTimer.hook = hook
+                leave()
+                if 'cb' in holder:
+                    holder['cb'].join(5.0)
+        armed = [t for t in ScriptedTimer.instances if t.armed]
+        return len(armed)
+    finally:
+        U.Timer = orig
+
+
+_old_timer_race = timer_race
+
+
+def timer_race(inp):
+    bad = []
+    for kind in ('exit', 'context-normal', 'context-exception'):
+        for inter in ('callback-first', 'caller-first'):
+            n = _race(kind, inter)
+            if n:
+                bad.append({'caller_leaves_by': kind, 'interleaving': inter, 'armed_timers_after_the_caller_left': n})
+    return {'violates': bool(bad), 'detail': bad}
